@@ -4,6 +4,7 @@ import (
 	"crypto/rand"
 	"errors"
 	"io"
+	"strconv"
 	"strings"
 	"sync"
 )
@@ -26,6 +27,11 @@ type tapeReader struct {
 	replay   []tapeEntry
 	isReplay bool
 	mismatch bool
+	// short reads: at most `chunk` bytes per Read call with a nil error (legal for an io.Reader; callers
+	// must use io.ReadFull).  Consecutive Reads that continue one io.ReadFull are coalesced in the log.
+	chunk    int
+	contLen  int // bytes still expected by the ReadFull in progress (0 = none)
+	replayOf int // offset inside replay[0] already served
 }
 
 var errTape = errors.New("tape: read failed")
@@ -34,7 +40,8 @@ func (t *tapeReader) Read(p []byte) (int, error) {
 	t.mu.Lock()
 	defer t.mu.Unlock()
 	if !t.isReplay {
-		if len(p) > 1 {
+		cont := t.chunk > 0 && t.contLen > 0 && len(p) == t.contLen && len(t.log) > 0 && !t.log[len(t.log)-1].fail
+		if len(p) > 1 && !cont {
 			idx := t.nMulti
 			t.nMulti++
 			if idx == t.failAt {
@@ -42,10 +49,52 @@ func (t *tapeReader) Read(p []byte) (int, error) {
 				return 0, errTape
 			}
 		}
-		b := t.gen.bytes(len(p))
+		n := len(p)
+		if t.chunk > 0 && n > t.chunk {
+			n = t.chunk
+		}
+		b := t.gen.bytes(n)
 		copy(p, b)
-		t.log = append(t.log, tapeEntry{data: b})
-		return len(p), nil
+		if cont {
+			t.log[len(t.log)-1].data = append(t.log[len(t.log)-1].data, b...)
+		} else {
+			t.log = append(t.log, tapeEntry{data: b})
+		}
+		t.contLen = len(p) - n
+		return n, nil
+	}
+	if t.chunk > 0 && (len(p) > 1 || t.replayOf > 0) {
+		// chunked replay (a 1-byte request in the middle of a logical read is its last byte, not MaybeReadByte): serve the logged logical reads piecewise
+		if t.replayOf == 0 && len(t.replay) > 0 && !t.replay[0].fail && len(t.replay[0].data) == 1 {
+			t.replay = t.replay[1:]
+		}
+		if len(t.replay) == 0 {
+			t.mismatch = true
+			return 0, errTape
+		}
+		if t.replay[0].fail {
+			t.replay = t.replay[1:]
+			return 0, errTape
+		}
+		rest := t.replay[0].data[t.replayOf:]
+		n := len(p)
+		if n > t.chunk {
+			n = t.chunk
+		}
+		if n > len(rest) {
+			n = len(rest)
+		}
+		copy(p, rest[:n])
+		t.replayOf += n
+		if t.replayOf == len(t.replay[0].data) {
+			t.replay = t.replay[1:]
+			t.replayOf = 0
+		}
+		if n == 0 {
+			t.mismatch = true
+			return 0, errTape
+		}
+		return n, nil
 	}
 	if len(p) == 1 {
 		if len(t.replay) > 0 && !t.replay[0].fail && len(t.replay[0].data) == 1 {
@@ -76,38 +125,67 @@ func (t *tapeReader) Read(p []byte) (int, error) {
 	return len(p), nil
 }
 
-func tapeString(log []tapeEntry) string {
-	if len(log) == 0 {
-		return "-"
+func tapeString(log []tapeEntry) string { return tapeStringC(log, 0) }
+
+// tapeStringC: a leading "~k" element records that the reader served at most k bytes per Read call
+func tapeStringC(log []tapeEntry, chunk int) string {
+	var parts []string
+	if chunk > 0 {
+		parts = append(parts, "~"+strconv.Itoa(chunk))
 	}
-	parts := make([]string, len(log))
-	for i, e := range log {
+	for _, e := range log {
 		if e.fail {
-			parts[i] = "!"
+			parts = append(parts, "!")
 		} else {
-			parts[i] = hx(e.data)
+			parts = append(parts, hx(e.data))
 		}
+	}
+	if len(parts) == 0 {
+		return "-"
 	}
 	return strings.Join(parts, ",")
 }
 
 func parseTape(s string) ([]tapeEntry, bool) {
+	e, _, ok := parseTapeC(s)
+	return e, ok
+}
+
+func parseTapeC(s string) ([]tapeEntry, int, bool) {
 	if s == "-" {
-		return nil, true
+		return nil, 0, true
 	}
+	chunk := 0
 	var out []tapeEntry
-	for _, p := range strings.Split(s, ",") {
+	for i, p := range strings.Split(s, ",") {
+		if i == 0 && strings.HasPrefix(p, "~") {
+			c, err := strconv.Atoi(p[1:])
+			if err != nil || c <= 0 {
+				return nil, 0, false
+			}
+			chunk = c
+			continue
+		}
 		if p == "!" {
 			out = append(out, tapeEntry{fail: true})
 			continue
 		}
 		b, ok := unhex(p)
 		if !ok {
-			return nil, false
+			return nil, 0, false
 		}
 		out = append(out, tapeEntry{data: b})
 	}
-	return out, true
+	return out, chunk, true
+}
+
+// replayTape builds the replay reader for a tape string
+func replayTape(s string) (*tapeReader, bool) {
+	e, c, ok := parseTapeC(s)
+	if !ok {
+		return nil, false
+	}
+	return &tapeReader{isReplay: true, replay: e, chunk: c}, true
 }
 
 var osReader io.Reader = rand.Reader
